@@ -392,13 +392,14 @@ class PrecipitateModel (PrecipitateBase):
         #If parent phases exists, then calculate the number of potential nucleation sites on the parent phase
         # #This is the number of lattice sites on the total surface area of the parent precipitate
         nucleationSites = np.sum([4*np.pi*self.PBM[p2].SecondMomentFromN(x[p2]) * (AVOGADROS_NUMBER/VmBetas[p2])**(2/3) for p2 in parentPhases[p]])
-        if isinstance(nucParams[p].description, BulkDescription):
-            bulkPrec = np.sum([self.PBM[p2].ZeroMomentFromN(x[p2]) for p2 in range(len(self.phases)) if isinstance(nucParams[p2].description, BulkDescription)])
-            nucleationSites += self.matrixParameters.nucleationSites.bulkN0 - bulkPrec
-
-        elif isinstance(nucParams[p].description, DislocationDescription):
+        #DislocationDescription derives from BulkDescription, so it has to be tested first
+        if isinstance(nucParams[p].description, DislocationDescription):
             bulkPrec = np.sum([self.PBM[p2].FirstMomentFromN(x[p2]) for p2 in range(len(self.phases)) if isinstance(nucParams[p2].description, DislocationDescription)])
             nucleationSites += self.matrixParameters.nucleationSites.dislocationN0 - bulkPrec * (AVOGADROS_NUMBER / self.matrixParameters.volume.Vm)**(1/3)
+
+        elif isinstance(nucParams[p].description, BulkDescription):
+            bulkPrec = np.sum([self.PBM[p2].ZeroMomentFromN(x[p2]) for p2 in range(len(self.phases)) if isinstance(nucParams[p2].description, BulkDescription) and not isinstance(nucParams[p2].description, DislocationDescription)])
+            nucleationSites += self.matrixParameters.nucleationSites.bulkN0 - bulkPrec
 
         elif isinstance(nucParams[p].description, GrainBoundaryDescription):
             boundPrec = np.sum([nucParams[p2].gbRemoval * self.PBM[p2].SecondMomentFromN(x[p2]) for p2 in range(len(self.phases)) if isinstance(nucParams[p2].description, GrainBoundaryDescription)])
